@@ -294,6 +294,8 @@ struct World<'a, 'b, 'c> {
 	deferred: bool,
 	closed: HashSet<String>,
 	closed_by: HashMap<String, HashSet<usize>>,
+	evhold: Vec<bool>,
+	zeroconf: bool,
 	delivered: Option<String>,
 	claimed: Option<String>,
 	// per-step accumulators
@@ -461,10 +463,23 @@ impl<'a, 'b, 'c> World<'a, 'b, 'c> {
 				acted = true;
 			},
 			Event::OpenChannelRequest { temporary_channel_id, counterparty_node_id, .. } => {
-				self.nodes[n]
-					.node
-					.accept_inbound_channel(&temporary_channel_id, &counterparty_node_id, 7, None)
-					.unwrap();
+				if self.zeroconf {
+					self.nodes[n]
+						.node
+						.accept_inbound_channel_from_trusted_peer(
+							&temporary_channel_id,
+							&counterparty_node_id,
+							7,
+							lightning::ln::channelmanager::TrustedChannelFeatures::ZeroConf,
+							None,
+						)
+						.unwrap();
+				} else {
+					self.nodes[n]
+						.node
+						.accept_inbound_channel(&temporary_channel_id, &counterparty_node_id, 7, None)
+						.unwrap();
+				}
 				acted = true;
 			},
 			Event::PaymentClaimable { payment_hash, .. } => {
@@ -492,7 +507,13 @@ impl<'a, 'b, 'c> World<'a, 'b, 'c> {
 			Event::ChannelClosed { channel_id, reason, .. } => {
 				self.closed.insert(cid(&channel_id));
 				self.closed_by.entry(cid(&channel_id)).or_insert_with(HashSet::new).insert(n);
-				let expected = matches!(reason, ClosureReason::HolderForceClosed { .. });
+				let expected = matches!(
+					reason,
+					ClosureReason::HolderForceClosed { .. }
+						| ClosureReason::LocallyInitiatedCooperativeClosure
+						| ClosureReason::CounterpartyInitiatedCooperativeClosure
+						| ClosureReason::LegacyCooperativeClosure
+				);
 				detail = format!("{} {}", cid(&channel_id), reason);
 				if !expected {
 					self.errs.push(format!("node {} channel closed: {}", n, detail));
@@ -534,10 +555,12 @@ impl<'a, 'b, 'c> World<'a, 'b, 'c> {
 					activity = true;
 					self.handle_msg_event(n, ev);
 				}
-				let evs = self.nodes[n].node.get_and_clear_pending_events();
-				for ev in evs {
-					activity = true;
-					self.handle_event(n, ev);
+				if !self.evhold[n] {
+					let evs = self.nodes[n].node.get_and_clear_pending_events();
+					for ev in evs {
+						activity = true;
+						self.handle_event(n, ev);
+					}
 				}
 				// the ChainMonitor is a message handler too (peer storage): drop its events
 				let _ = self.nodes[n].chain_monitor.chain_monitor.get_and_clear_pending_msg_events();
@@ -952,6 +975,37 @@ impl<'a, 'b, 'c> World<'a, 'b, 'c> {
 				}
 				any
 			},
+			"evhold" => {
+				// the application stops / resumes handling its events (completion actions of unhandled
+				// events keep later RAA monitor updates blocked)
+				let n = num(1) % nn;
+				let on = t.get(2) == Some(&"on");
+				if self.evhold[n] == on {
+					return false;
+				}
+				self.evhold[n] = on;
+				true
+			},
+			"events" => {
+				let n = num(1) % nn;
+				let evs = self.nodes[n].node.get_and_clear_pending_events();
+				let any = !evs.is_empty();
+				for ev in evs {
+					self.handle_event(n, ev);
+				}
+				any
+			},
+			"close" => {
+				let n = num(1) % nn;
+				if self.chans[n].is_empty() {
+					return false;
+				}
+				let (chan, peer) = self.chans[n][num(2) % self.chans[n].len()];
+				if self.closed.contains(&cid(&chan)) {
+					return false;
+				}
+				self.nodes[n].node.close_channel(&chan, &self.ids[peer]).is_ok()
+			},
 			"fc" => {
 				let n = num(1) % nn;
 				if self.chans[n].is_empty() {
@@ -1027,6 +1081,8 @@ fn run_schedule(line: &str) {
 	let kind = head.get(0).cloned().unwrap_or("steady");
 	let relaxed = head.get(1) == Some(&"relaxed");
 	let deferred = head.get(2) == Some(&"def");
+	let noupfront = head.contains(&"noupfront");
+	let zeroconf = head.contains(&"zeroconf");
 	let ops: Vec<String> = parts.filter(|s| !s.is_empty()).map(|s| s.to_string()).collect();
 	let nn = if kind == "open" { 2 } else { 3 };
 
@@ -1046,7 +1102,12 @@ fn run_schedule(line: &str) {
 			);
 		}
 	}
-	let cfgs: Vec<Option<lightning::util::config::UserConfig>> = (0..nn).map(|_| None).collect();
+	let mut ucfg = test_default_channel_config();
+	if noupfront {
+		// shutdown then needs a ShutdownScript monitor update
+		ucfg.channel_handshake_config.commit_upfront_shutdown_pubkey = false;
+	}
+	let cfgs: Vec<Option<lightning::util::config::UserConfig>> = (0..nn).map(|_| Some(ucfg.clone())).collect();
 	let node_chanmgrs = create_node_chanmgrs(nn, &node_cfgs, &cfgs);
 	let nodes = create_network(nn, &node_cfgs, &node_chanmgrs);
 	for n in nodes.iter() {
@@ -1079,6 +1140,8 @@ fn run_schedule(line: &str) {
 		deferred,
 		closed: HashSet::new(),
 		closed_by: HashMap::new(),
+		evhold: vec![false; nn],
+		zeroconf,
 		delivered: None,
 		claimed: None,
 		w: Vec::new(),
@@ -1138,6 +1201,7 @@ fn run_schedule(line: &str) {
 			for _round in 0..400 {
 				let mut sub: Vec<String> = Vec::new();
 				for n in 0..nn {
+					sub.push(format!("evhold {} off", n));
 					sub.push(format!("flush {} 0", n));
 				}
 				// one completion per step: a relaxed persister may answer Completed again only once the
